@@ -392,6 +392,42 @@ async fn commit_after_damage(dir: PathBuf, damage: fn(&mut Vec<u8>), what: &str)
     }
 }
 
+/// commit() is called again on a transaction whose commit has just failed.
+fn c02_commit_again_after_failure(dir: PathBuf) -> ScenFut<'static> {
+    Box::pin(async move {
+        let t = base_cfg().open(&dir).map_err(|e| e.to_string())?;
+        put(&t, &[(b"k", b"v0")]).await?;
+        let mut t2 = t.begin().map_err(|e| e.to_string())?;
+        t2.set(&b"k"[..], &b"from-t2"[..]).map_err(|e| e.to_string())?;
+        t2.set(&b"only-t2"[..], &b"x"[..]).map_err(|e| e.to_string())?;
+        put(&t, &[(b"k", b"v1")]).await?; // T1 commits k after T2 began
+        let first = t2.commit().await;
+        let second = t2.commit().await;
+        let own = t2.get(&b"only-t2"[..]);
+        drop(t2);
+        let k = get1(&t, b"k")?;
+        let only = get1(&t, b"only-t2")?;
+        close(t).await;
+        let t = base_cfg().open(&dir).map_err(|e| e.to_string())?;
+        let only_after = get1(&t, b"only-t2")?;
+        close(t).await;
+        if first.is_ok() {
+            return Err("harness: the overlapping writer was expected to be refused".into());
+        }
+        if second.is_ok() && (only.is_none() || only_after.is_none() || k.as_deref() != Some(&b"from-t2"[..])) {
+            return Err(format!(
+                "T2 sets k and only-t2; T1 commits k; T2.commit() returns an error ({}); T2.commit() called again returns Ok(()) - yet nothing of T2 is in the store (k = {:?}, only-t2 present: {}, after reopen: {}); T2's own read of only-t2 after the failed commit: {:?}",
+                first.unwrap_err(),
+                k.map(|v| String::from_utf8_lossy(&v).to_string()),
+                only.is_some(),
+                only_after.is_some(),
+                own.map(|v| v.is_some()).map_err(|e| e.to_string())
+            ));
+        }
+        Ok(())
+    })
+}
+
 fn c02_commit_after_wal_repair(dir: PathBuf) -> ScenFut<'static> {
     Box::pin(async move {
         commit_after_damage(
@@ -2120,34 +2156,112 @@ fn c17_wakeup_lost_before_idle(dir: PathBuf) -> ScenFut<'static> {
 
 fn c04_rollback_forgets_earlier_committer(dir: PathBuf) -> ScenFut<'static> {
     Box::pin(async move {
-        let cfg = Cfg { max_memtable_size: 16 * 1024, ..base_cfg() };
-        let t = cfg.open(&dir).map_err(|e| e.to_string())?;
-        // T2 begins first (it will write k at the very end)
-        let mut t2 = t.begin().map_err(|e| e.to_string())?;
-        let seen = t2.get(&b"k"[..]).map_err(|e| e.to_string())?;
-        // T1 commits k after T2 began
-        put(&t, &[(b"k", b"v1")]).await?;
-        // T3 begins after T1, writes k with a value that passes the conflict check and the
-        // commit log but cannot be applied (it does not fit the memtable arena): commit fails
-        let big = vec![0x33u8; 16_000];
-        let r3 = put(&t, &[(b"k", &big[..])]).await;
-        // T2, which never saw T1's commit, now writes k
-        t2.set(&b"k"[..], &b"v2"[..]).map_err(|e| e.to_string())?;
-        let r2 = t2.commit().await;
-        drop(t2);
-        let fin = get1(&t, b"k")?;
-        close(t).await;
-        if r3.is_ok() {
-            return Err("harness: the transaction that should fail in its apply step was accepted".into());
+        // the failing transaction writes k once, or several times (its batch then carries the
+        // key more than once: writes before and after a savepoint), alone or next to other keys
+        for shape in ["k once", "k before and after a savepoint", "k three times across two savepoints, and another key", "another key, then k before and after a savepoint"] {
+            let cfg = Cfg { max_memtable_size: 16 * 1024, ..base_cfg() };
+            let d = dir.join(shape.replace([' ', ','], "_"));
+            let t = cfg.open(&d).map_err(|e| e.to_string())?;
+            // T2 begins first (it will write k at the very end)
+            let mut t2 = t.begin().map_err(|e| e.to_string())?;
+            let seen = t2.get(&b"k"[..]).map_err(|e| e.to_string())?;
+            // T1 commits k after T2 began
+            put(&t, &[(b"k", b"v1")]).await?;
+            // T3 begins after T1, writes k with a value that passes the conflict check but
+            // cannot be applied (it does not fit a memtable): its commit fails after its keys
+            // were entered in the conflict map
+            let big = vec![0x33u8; 16_000];
+            let mut t3 = t.begin().map_err(|e| e.to_string())?;
+            let e = |e: surrealkv::Error| e.to_string();
+            match shape {
+                "k once" => t3.set(&b"k"[..], &big[..]).map_err(e)?,
+                "k before and after a savepoint" => {
+                    t3.set(&b"k"[..], &b"first"[..]).map_err(e)?;
+                    t3.set_savepoint().map_err(e)?;
+                    t3.set(&b"k"[..], &big[..]).map_err(e)?;
+                }
+                "k three times across two savepoints, and another key" => {
+                    t3.set(&b"k"[..], &b"first"[..]).map_err(e)?;
+                    t3.set_savepoint().map_err(e)?;
+                    t3.set(&b"k"[..], &b"second"[..]).map_err(e)?;
+                    t3.set(&b"other"[..], &b"o"[..]).map_err(e)?;
+                    t3.set_savepoint().map_err(e)?;
+                    t3.set(&b"k"[..], &big[..]).map_err(e)?;
+                }
+                _ => {
+                    t3.set(&b"other"[..], &big[..]).map_err(e)?;
+                    t3.set(&b"k"[..], &b"first"[..]).map_err(e)?;
+                    t3.set_savepoint().map_err(e)?;
+                    t3.set(&b"k"[..], &b"second"[..]).map_err(e)?;
+                }
+            }
+            let r3 = t3.commit().await;
+            drop(t3);
+            // T2, which never saw T1's commit, now writes k
+            t2.set(&b"k"[..], &b"v2"[..]).map_err(|e| e.to_string())?;
+            let r2 = t2.commit().await;
+            drop(t2);
+            let fin = get1(&t, b"k")?;
+            close(t).await;
+            let _ = std::fs::remove_dir_all(&d);
+            if r3.is_ok() {
+                return Err("harness: the transaction that should fail after the conflict check was accepted".into());
+            }
+            match r2 {
+                Err(surrealkv::Error::TransactionWriteConflict) | Err(surrealkv::Error::TransactionRetry) => {}
+                Err(e) => return Err(format!("commit of the overlapping writer failed with an unexpected error: {e}")),
+                Ok(()) => {
+                    return Err(format!(
+                        "T2 begins (reads k = {:?}); T1 commits k=v1; T3 (begun after T1) writes {} and its commit fails ({}), rolling back its conflict-map entries; T2 then writes k and commits successfully although T1 committed k after T2 began: T1's update is lost (k = {:?})",
+                        seen.map(|v| String::from_utf8_lossy(&v).to_string()),
+                        shape,
+                        r3.unwrap_err(),
+                        fin.map(|v| String::from_utf8_lossy(&v[..v.len().min(8)]).to_string())
+                    ))
+                }
+            }
         }
-        match r2 {
+        Ok(())
+    })
+}
+
+/// A transaction begun before a restore commits after it, on a key that a transaction begun
+/// after the restore has committed in the meantime.
+fn c04_writer_begun_before_restore(dir: PathBuf) -> ScenFut<'static> {
+    Box::pin(async move {
+        let t = base_cfg().open(&dir).map_err(|e| e.to_string())?;
+        let ck = dir.with_extension("ckpt");
+        let _ = std::fs::remove_dir_all(&ck);
+        put(&t, &[(b"counter", b"0")]).await?;
+        t.create_checkpoint(&ck).map_err(|e| e.to_string())?;
+        // the timeline that the restore discards: a few commits, so that sequence numbers go on
+        for i in 0..6u8 {
+            put(&t, &[(b"filler", &[b'0' + i][..])]).await?;
+        }
+        // T0 begins before the restore and reads the counter
+        let mut t0 = t.begin().map_err(|e| e.to_string())?;
+        let seen0 = t0.get(&b"counter"[..]).map_err(|e| e.to_string())?;
+        t.restore_from_checkpoint(&ck).map_err(|e| format!("restore: {e}"))?;
+        // T1 begins after the restore, increments the counter and commits
+        let mut t1 = t.begin().map_err(|e| e.to_string())?;
+        let seen1 = t1.get(&b"counter"[..]).map_err(|e| e.to_string())?;
+        t1.set(&b"counter"[..], &b"1"[..]).map_err(|e| e.to_string())?;
+        t1.commit().await.map_err(|e| format!("T1 (begun after the restore) was refused: {e}"))?;
+        // T0 increments what it read and commits
+        t0.set(&b"counter"[..], &b"1-from-t0"[..]).map_err(|e| e.to_string())?;
+        let r0 = t0.commit().await;
+        drop(t0);
+        let fin = get1(&t, b"counter")?;
+        close(t).await;
+        let _ = std::fs::remove_dir_all(&ck);
+        match r0 {
             Err(surrealkv::Error::TransactionWriteConflict) | Err(surrealkv::Error::TransactionRetry) => Ok(()),
-            Err(e) => Err(format!("commit of the overlapping writer failed with an unexpected error: {e}")),
+            Err(e) => Err(format!("commit of the transaction begun before the restore failed with an unexpected error: {e}")),
             Ok(()) => Err(format!(
-                "T2 begins (reads k = {:?}); T1 commits k=v1; T3 (begun after T1) writes k and its commit fails in the apply step ({}), rolling back its conflict-map entry; T2 then writes k and commits successfully although T1 committed k after T2 began: T1's update is lost (k = {:?})",
-                seen.map(|v| String::from_utf8_lossy(&v).to_string()),
-                r3.unwrap_err(),
-                fin.map(|v| String::from_utf8_lossy(&v[..v.len().min(8)]).to_string())
+                "T0 begins and reads counter = {:?}; the store is restored to an earlier checkpoint; T1 begins, reads counter = {:?}, writes it and commits; T0 then writes counter and commits successfully: both overlapping writers of the key committed, T1's update is lost (counter = {:?}). T0's horizon lies above the restored sequence number, so neither the retry rule (horizon below the restored sequence number) nor the conflict check (T1's stamp is below T0's horizon) refuses it",
+                seen0.map(|v| String::from_utf8_lossy(&v).to_string()),
+                seen1.map(|v| String::from_utf8_lossy(&v).to_string()),
+                fin.map(|v| String::from_utf8_lossy(&v).to_string())
             )),
         }
     })
@@ -2297,6 +2411,18 @@ pub fn all() -> Vec<Scenario> {
             property: "C15",
             title: "two-entry transactions from just below to just above what an empty memtable takes",
             run: c15_sizes_around_a_memtable,
+        },
+        Scenario {
+            id: "C02-commit-again-after-failure",
+            property: "C02",
+            title: "commit() called a second time on a transaction whose commit was refused",
+            run: c02_commit_again_after_failure,
+        },
+        Scenario {
+            id: "C04-writer-begun-before-restore",
+            property: "C04",
+            title: "a transaction begun before a restore and one begun after it write the same key",
+            run: c04_writer_begun_before_restore,
         },
         Scenario {
             id: "C16-filter-block-unchecked",
